@@ -141,3 +141,59 @@ func atoiDef(s string, d int) int {
 	}
 	return v
 }
+
+// The lines the client writes ON ITS OWN at the start of a connection carry configuration strings (server password, WEBIRC
+// fields, nick, user, real name): whatever those contain, each is one CRLF-terminated line whose command is the expected one.
+func init() {
+	runners["preamblewire"] = func(c *Ctx, in map[string]string) {
+		hin := hexIn(in)
+		cfg := girc.Config{Server: "irc.example.org", Port: 6667, Nick: "me", User: "me", Name: in["name"], ServerPass: in["pass"], AllowFlood: true}
+		if in["webirc"] != "" {
+			cfg.WebIRC = girc.WebIRC{Password: in["webirc"], Gateway: "gw", Hostname: in["webhost"], Address: "1.2.3.4"}
+		}
+		cl := girc.New(cfg)
+		cli, srv := net.Pipe()
+		ret := make(chan error, 1)
+		go func() { ret <- cl.MockConnect(cli) }()
+		var got bytes.Buffer
+		buf := make([]byte, 4096)
+		deadline := time.Now().Add(3 * time.Second)
+		for !bytes.Contains(got.Bytes(), []byte("USER ")) || !bytes.HasSuffix(got.Bytes(), []byte("\n")) {
+			srv.SetReadDeadline(deadline)
+			n, err := srv.Read(buf)
+			got.Write(buf[:n])
+			if err != nil {
+				break
+			}
+		}
+		cl.Close()
+		srv.Close()
+		select {
+		case <-ret:
+		case <-time.After(5 * time.Second):
+		}
+		allowed := map[string]bool{"PASS": true, "WEBIRC": true, "CAP": true, "NICK": true, "USER": true}
+		for _, l := range strings.SplitAfter(got.String(), "\n") {
+			if l == "" {
+				continue
+			}
+			body := strings.TrimSuffix(l, "\r\n")
+			cmd := strings.SplitN(body, " ", 2)[0]
+			if !strings.HasSuffix(l, "\r\n") || strings.ContainsAny(body, "\r\n") || !allowed[cmd] {
+				c.R.Violation("c03.preamble_line", hin, q(got.String()), "PASS/WEBIRC/CAP/NICK/USER lines only, one per event",
+					"a registration line built from a configuration string is not exactly one CRLF-terminated line of the expected command: "+q(l))
+				break
+			}
+		}
+		c.R.Count("preamblewire/"+fmt.Sprint(in), true, "preamble-wire")
+	}
+}
+
+func runC03Preamble(c *Ctx) {
+	nasty := []string{"hunter2\r\nOPER root toor", "pw\nJOIN #x", "a\rb", "plain", "trailing\r\n", "évil\r\nQUIT"}
+	for i, p := range nasty {
+		c.run("preamblewire", map[string]string{"pass": p, "name": "Real Name"})
+		c.run("preamblewire", map[string]string{"webirc": p, "webhost": nasty[(i+1)%len(nasty)], "name": "Real\r\nNICK other"})
+		c.R.Traces += 2
+	}
+}
